@@ -36,11 +36,11 @@ fn(RMD + '._generate_face_corners', properties=['C02'],
              # a table of the right length is taken as already generated (the readers pre-fill it): then it must be right
              'implies(len(self.face_corners._elem) == first[len(self.faces._data)] and len(self.face_corners._elem) > 0, corners_of(self.face_corners, self.faces._data, first, len(self.faces._data)))'],
    modifies=['self.face_corners._elem', 'self.face_corners._adj'],
-   loops={1: loop(invariant=['len(self.face_corners._elem) == first[it1]', 'len(self.face_corners._adj) == first[it1]', 'len(self.face_corners._attr) == 0',
-                             'corners_of(self.face_corners, self.faces._data, first, it1)']),
-          2: loop(invariant=['len(self.face_corners._elem) == first[it1] + it2', 'len(self.face_corners._adj) == first[it1] + it2', 'len(self.face_corners._attr) == 0',
-                             'corners_of(self.face_corners, self.faces._data, first, it1)',
-                             'all(self.face_corners._elem[first[it1] + i] == self.faces._data[it1][i] and self.face_corners._adj[first[it1] + i] == it1 for i in range(it2))'])},
+   loops={0: loop(invariant=['len(self.face_corners._elem) == first[it0]', 'len(self.face_corners._adj) == first[it0]', 'len(self.face_corners._attr) == 0',
+                             'corners_of(self.face_corners, self.faces._data, first, it0)']),
+          1: loop(invariant=['len(self.face_corners._elem) == first[it0] + it1', 'len(self.face_corners._adj) == first[it0] + it1', 'len(self.face_corners._attr) == 0',
+                             'corners_of(self.face_corners, self.faces._data, first, it0)',
+                             'all(self.face_corners._elem[first[it0] + i] == self.faces._data[it0][i] and self.face_corners._adj[first[it0] + i] == it0 for i in range(it1))'])},
    # one corner record per face-vertex incidence, in element order, with its vertex and its owner face
    ensures=['len(self.face_corners._elem) == first[len(self.faces._data)]', 'len(self.face_corners._adj) == first[len(self.faces._data)]',
             'corners_of(self.face_corners, self.faces._data, first, len(self.faces._data))'])
